@@ -97,8 +97,8 @@ def groups(tier, seed):
     g("MMC_MALLOC", "m4ri_mmc_malloc", base)
     g("MMC_CALLOC", "m4ri_mmc_calloc", base)
     g("HDR_MALLOC", "mzd_t_malloc", base)
-    for r, c in ((3, 130), (1, 1), (0, 7), (2, 64)):
-        g("INIT", "mzd_init/mzd_init_window", base, extra={"RDIM": r, "CDIM": c}, bounded=True, note="%dx%d" % (r, c))
+    for r, c, used in ((3, 130, "0"), (1, 1, "0"), (0, 7, "0"), (2, 64, "0")):
+        g("INIT", "mzd_init/mzd_init_window", base, extra={"RDIM": r, "CDIM": c, "USEDMASK": used}, bounded=True, note="%dx%d, header block %s" % (r, c, "empty" if used == "0" else "full"))
     g("MZP", "mzp_init/mzp_init_window/mzp_copy", base + ["mzp"], bounded=True, note="length<=8")
     g("DJB_INIT", "djb_init", base)
     g("DJB_PUSH", "djb_push_back", base)
